@@ -46,6 +46,105 @@ def rooted(v):
     return None
 
 
+def shared_containers(ctx, report, RULE='C13.R5', only=None):
+    """a list / dict / set / bytearray that lives in a class level or module level variable (also inside a tuple) must not
+    become an attribute of a parsed object: every object parsed afterwards would hold the *same* container, and editing one
+    edits all of them (and the class).  The abstract interpreter keeps the identity of such a container from the variable to
+    the constructor argument (unpacking, locals and helper calls included); ``list(X)`` / ``dict(X)`` / a literal make a new one."""
+    from ..core import representatives
+    from ..model import VarRef
+    from ..values import DictV, ListV
+    model, it = ctx.model, ctx.interp
+    report.rule(RULE, 'no mutable container held by a class or module level variable becomes part of a parsed object')
+
+    def mutable_literal(node):
+        for n in ast.walk(node):
+            if isinstance(n, (ast.List, ast.Dict, ast.Set, ast.ListComp, ast.DictComp, ast.SetComp)):
+                return True
+            if isinstance(n, ast.Call) and ast.unparse(n.func).split('.')[-1] in ('list', 'dict', 'set', 'bytearray', 'OrderedDict', 'defaultdict'):
+                return True
+        return False
+    shared = {}
+
+    def register(v, where, depth=0):
+        if depth > 3:
+            return
+        if isinstance(v, (ListV, DictV)):
+            shared[id(v)] = (where, v)
+        if isinstance(v, tuple):
+            for x in v:
+                register(x, where, depth + 1)
+        if isinstance(v, ListV):
+            for x in v.items:
+                register(x, where, depth + 1)
+    n_vars = 0
+    for m in model.repo_modules():
+        for name, b in m.bindings.items():
+            if b[0] == 'var' and isinstance(b[1], ast.AST) and mutable_literal(b[1]):
+                n_vars += 1
+                try:
+                    register(it.eval_var(VarRef(m, name, b[1])), '%s:%s' % (m.relpath, name))
+                except Exception:      # pylint: disable=broad-except
+                    pass
+    for c in model.repo_classes():
+        for name, node in c.class_vars.items():
+            if isinstance(node, ast.AST) and mutable_literal(node):
+                n_vars += 1
+                try:
+                    register(it.eval_var(VarRef(c.module, name, node, c)), '%s.%s' % (c.name, name))
+                except Exception:      # pylint: disable=broad-except
+                    pass
+    report.count(RULE, n_vars)
+
+    def objects(v, out, depth=0):
+        from ..values import ObjV, Sym
+        if depth > 4:
+            return
+        if isinstance(v, tuple):
+            for x in v:
+                objects(x, out, depth + 1)
+        elif isinstance(v, ObjV):
+            out.append(v)
+        elif isinstance(v, Sym) and v.op == 'phi':
+            for a in v.args:
+                objects(a, out, depth + 1)
+
+    def held(v, depth=0):
+        from ..values import Sym
+        if getattr(v, 'shared_from', None):
+            return v.shared_from
+        if id(v) in shared:
+            return shared[id(v)][0]
+        if depth < 3 and isinstance(v, tuple):
+            for x in v:
+                r = held(x, depth + 1)
+                if r:
+                    return r
+        if depth < 3 and isinstance(v, Sym) and v.op == 'phi':
+            for x in v.args:
+                r = held(x, depth + 1)
+                if r:
+                    return r
+        return None
+    for c in representatives(ctx, '_parse'):
+        if only is not None and not only(c):
+            continue
+        try:
+            res = ctx.canon.layout(c, 'parse').result
+        except Exception:      # pylint: disable=broad-except
+            continue
+        objs = []
+        objects(res.value, objs)
+        for o in objs:
+            report.count(RULE)
+            for pname, pv in (o.ctor_args or {}).items():
+                where = held(pv)
+                if where:
+                    report.add(RULE, '%s@shared[%s]' % (c.resolve('_parse').construct, pname),
+                               'the parsed %s receives as %s the container held by %s itself (no copy): every object parsed this way shares it, an '
+                               'edit of one object changes the others and what later parses return' % (o.cls.name, pname, where))
+
+
 def check(ctx, report):
     model, it = ctx.model, ctx.interp
     report.rule('C13.R1', 'observers do not write to self, to class level state or to their arguments')
@@ -54,6 +153,7 @@ def check(ctx, report):
     vector_constructor(ctx, report)
     returned_internals(ctx, report)
     observers_pure(ctx, report)
+    shared_containers(ctx, report)
     # ---- R2
     for c in model.repo_classes():
         for fld in c.own_fields:
